@@ -153,3 +153,157 @@ def gen_input(rng, p, max_rows=12, dom=None):
 
 def dedup_input(inp):
     return {r: list(dict.fromkeys(rows)) for r, rows in inp.items()}
+
+
+# ------------------------------------------------------------------ lattices (C03) and aggregation (C04)
+
+def lat_head_expr(rng, kind, int_vars, lat_vars):
+    """a MONOTONE expression for the lattice column of a head: lattice variables only flow into lattice columns"""
+    same = [v for v, k in lat_vars if k == kind]
+    if same and rng.chance(2, 3):
+        v = rng.choice(same)
+        if kind == "max": return rng.choice([("var", v), ("min", ("add", ("var", v), rng.range(0, 2)), BOUND)])
+        if kind == "min": return rng.choice([("var", v), ("add", ("var", v), rng.range(0, 3))])
+        return ("var", v)
+    e = ("var", rng.choice(int_vars)) if int_vars and rng.chance(2, 3) else rng.range(0, 4)
+    if kind == "set": return ("single", e)
+    if kind == "opt": return ("somex", e) if rng.chance(4, 5) else "none"
+    return e
+
+
+def gen_lat_program(rng):
+    """relations plus 1-2 lattice relations; lattice values are used monotonically"""
+    nrel = rng.range(2, 4)
+    p = {"rels": [{"arity": rng.choice([1, 2, 2, 3])} for _ in range(nrel)], "rules": []}
+    nlat = rng.range(1, 2)
+    for _ in range(nlat):
+        p["rels"].append({"arity": rng.choice([1, 2, 2, 3]), "lat": rng.choice(["max", "min", "min", "set", "opt"])})
+    lats = list(range(nrel, nrel + nlat))
+    rels = list(range(nrel))
+    def rule(h, body_rels):
+        nv = [0]
+        def fresh():
+            nv[0] += 1; return nv[0] - 1
+        ints, latv, body = [], [], []
+        for r in body_rels:
+            d = p["rels"][r]
+            args = []
+            for j in range(d["arity"]):
+                if d.get("lat") and j == d["arity"] - 1:
+                    v = fresh(); args.append(("v", v)); latv.append((v, d["lat"]))
+                elif ints and rng.chance(2, 5): args.append(("v", rng.choice(ints)))
+                elif rng.chance(1, 8): args.append(("e", rng.range(0, 3)))
+                else:
+                    v = fresh(); args.append(("v", v)); ints.append(v)
+            conds = [("if", ("lt", ("var", rng.choice(ints)), rng.range(2, BOUND)))] if ints and rng.chance(1, 5) else []
+            body.append(("cl", r, args, conds))
+        d = p["rels"][h]
+        hargs, guards = [], []
+        for j in range(d["arity"]):
+            if d.get("lat") and j == d["arity"] - 1: hargs.append(lat_head_expr(rng, d["lat"], ints, latv))
+            elif ints and rng.chance(5, 6): hargs.append(("var", rng.choice(ints)))
+            elif ints and rng.chance(1, 2):
+                v = rng.choice(ints); hargs.append(("add", ("var", v), 1)); guards.append(("if", ("lt", ("var", v), BOUND)))
+            else: hargs.append(rng.range(0, 3))
+        p["rules"].append({"heads": [(h, hargs)], "body": body + guards})
+    for l in lats:
+        rule(l, [rng.choice(rels)])                      # seed the lattice from a relation
+        if rng.chance(4, 5): rule(l, [l, rng.choice(rels)])   # recursion through the lattice (shortest-path shape)
+        if rng.chance(1, 3): rule(l, [l, l])
+    for _ in range(rng.range(1, 3)):
+        h = rng.choice(rels + lats)
+        rule(h, [rng.choice(rels + lats) for _ in range(rng.range(1, 2))])
+    if len(lats) == 2 and rng.chance(1, 2): rule(lats[1], [lats[0]])
+    return p
+
+
+def lat_ok(p):
+    """lattice variables may flow only into lattice columns of the same kind (monotone use); no lattice column is an index column"""
+    for ru in p["rules"]:
+        latv = {}
+        for it in ru["body"]:
+            if it[0] != "cl": continue
+            d = p["rels"][it[1]]
+            for j, a in enumerate(it[2]):
+                islat = d.get("lat") and j == d["arity"] - 1
+                if islat:
+                    if a[0] != "v" or a[1] in latv: return False
+                    latv[a[1]] = d["lat"]
+                elif a[0] == "v" and a[1] in latv: return False
+        for h, hargs in ru["heads"]:
+            d = p["rels"][h]
+            for j, e in enumerate(hargs):
+                islat = d.get("lat") and j == d["arity"] - 1
+                used = vars_of(e)
+                if not islat and any(v in latv for v in used): return False
+                if islat and any(latv.get(v, d["lat"]) != d["lat"] for v in used if v in latv): return False
+    return True
+
+
+def vars_of(e):
+    if isinstance(e, tuple):
+        if e[0] == "var": return {e[1]}
+        out = set()
+        for x in e[1:]: out |= vars_of(x)
+        return out
+    return set()
+
+
+def gen_lat_input(rng, p, max_rows=8):
+    inp = gen_input(rng, p, max_rows)
+    for r, d in enumerate(p["rels"]):
+        if d.get("lat"):
+            rows, seen = [], set()
+            for t in inp[r]:
+                k = t[:-1]
+                if k in seen: continue          # one input row per key (caller duplicates are exempt from the property)
+                seen.add(k)
+                v = t[-1]
+                lv = {"max": v, "min": v, "set": ("set", tuple(sorted({v, (v * 2) % 5}))), "opt": "none" if v == 0 else ("some", v)}[d["lat"]]
+                rows.append(k + (lv,))
+            inp[r] = rows[:3]
+    return inp
+
+
+AGGS = ["count", "sum", "min", "max", "not"]
+
+
+def gen_agg_program(rng):
+    """a stratified program: a relational core plus aggregation / negation rules at depth 1-3 of the stratum order"""
+    p = gen_program(rng, {"conds": True})
+    base = len(p["rels"])
+    depth = rng.range(1, 3)
+    prev_out = []
+    for dlev in range(depth):
+        for _ in range(rng.range(1, 2)):
+            src_pool = list(range(base)) + prev_out
+            src = rng.choice(src_pool)
+            sar = p["rels"][src]["arity"]
+            fn = rng.choice(AGGS)
+            key = rng.choice([r for r in range(base) if p["rels"][r]["arity"] >= 1])
+            kar = p["rels"][key]["arity"]
+            kvars = list(range(kar))
+            body = [("cl", key, [("v", v) for v in kvars], [])]
+            aargs, bound = [], []
+            bv = 20
+            for j in range(sar):
+                x = rng.below(10)
+                if x < 4: aargs.append(("k", ("var", rng.choice(kvars))))
+                elif x < 5: aargs.append(("k", rng.range(0, 3)))
+                elif x < 7 or fn in ("count", "not") or bound: aargs.append("_")
+                else: aargs.append(("b", bv)); bound.append(bv)
+            if fn in ("sum", "min", "max") and not bound:
+                j = rng.below(sar); aargs[j] = ("b", bv); bound = [bv]
+            outs = [] if fn == "not" else [21]
+            body.append(("agg", outs, fn, bound, src, aargs))
+            har = rng.choice([1, 2])
+            hargs = [("var", rng.choice(kvars))] + ([("var", 21)] if (outs and har == 2) else ([rng.range(0, 2)] if har == 2 else []))
+            p["rels"].append({"arity": har})
+            out = len(p["rels"]) - 1
+            p["rules"].append({"heads": [(out, hargs)], "body": body})
+            prev_out.append(out)
+    return p
+
+
+def nodup_input(rng, p, max_rows=8):
+    return dedup_input(gen_input(rng, p, max_rows))
